@@ -656,7 +656,7 @@ REUSE_SITES = {
     "drv_kernels:outer": ["RowColOuterProduct", "DVectorTrasposedDVectorDotProduct"],
     "drv_kernels:unary": ["MatrixTranspose", "MatrixNorm", "MatrixCovariance", "MatrixColAverage (append)", "MatrixColVar (append)", "MatrixColSDEV (append)",
                           "MatrixColRMS (append)", "MatrixRowAverage (append)"],
-    "drv_prep": ["MatrixPreprocess (transformed matrix)", "MatrixPreprocess (stored statistics)", "MatrixPreprocess (apply)", "MatrixPreprocess (apply into an empty output)"],
+    "drv_prep": ["MatrixPreprocess (transformed matrix)", "MatrixPreprocess (stored statistics)", "MatrixPreprocess (apply)", "MatrixPreprocess (apply into an empty output)", "MatrixPreprocess (apply with another value of the option argument)"],
     "drv_interp:spline": ["cubic_spline_interpolation (table that held a larger spline)", "cubic_spline_predict"],
     "drv_interp:nm": ["NelderMeadSimplex (result vector holding numbers)", "NelderMeadSimplex (start point used as result vector)"],
     "drv_stat:plsstat": ["PLSRegressionStatistics"],
